@@ -349,6 +349,18 @@ def connection_state(ctx, rep, rule, fields):
         want, why = STATE_CTORS[fld]
         v = init_field_ctor(ctx, cq, fld)
         got = _ctor_kind(v) if v is not None else "<not assigned in __init__>"
+        if fld == "_send_queue" and got != want and isinstance(v, ast.Call):
+            # any unbounded FIFO container serves (the discipline rules then judge how it is used); a bounded one blocks or
+            # drops in put(), a LIFO/priority one reorders
+            d_ = (A.call_name(v) or "").split(".")[-1]
+            bounded = [k.arg for k in v.keywords if k.arg in ("maxsize", "maxlen")] or \
+                (d_ in ("Queue", "LifoQueue", "PriorityQueue") and v.args) or (d_ == "deque" and len(v.args) >= 2)
+            if d_ in ("deque", "Queue", "SimpleQueue") and not bounded:
+                got = want
+            elif bounded:
+                why = "the queue is bounded: its only consumer is the thread holding the send lock, so a send re-entered on that " \
+                      "thread (a proxy finalizer during the write) blocks in put() for ever once the bound is reached, and every " \
+                      "other sender behind it"
         init = ctx.repo.method(ctx.cls(cq), "__init__")
         rep.ob(rule, "Connection.__init__: %s is a %s" % (fld, want), got == want,
                "%s()" % want if got == want else "self.%s is created as `%s`, not %s - %s" % (fld, got, want, why),
